@@ -100,6 +100,13 @@ var vhC18Tpl = []string{
 	"{% set s = xs|sort %}{% set r = s|reverse %}{% set q = s|merge(['zz'])|sort %}{% set t = s|slice(0, 2) %}{% set u = t|merge(['0'])|sort %}[{{ s|join(',') }}][{{ r|join(',') }}][{{ t|join(',') }}]",
 	"{% apply upper %}{{ xs|join(',') }}{% endapply %}{% spaceless %}<a> {{ m.a }} </a>{% endspaceless %}{% set n1 = nest[1] %}{{ n1.k|sort|join(',') }}{{ n1|merge({'k': 1})|length }}",
 	"{{ xs|sort|reverse|slice(0, 2)|merge(xs)|sort|join(',') }}{{ m|merge(m)|keys|join(',') }}{{ xs|join(',')|split(',')|sort|join(',') }}",
+	// every construct that binds a name, binding the name of a map, list or struct the caller passed
+	"{% import 'lib' as m %}{{ m.f(1) }}{% import 'lib' as xs %}{{ xs.f(2) }}{% import 'lib' as st %}{% import 'lib' as mi %}",
+	"{% from 'lib' import f as m %}{{ m(1) }}{% from 'lib' import f as xs, g as nest %}{{ xs(2) }}{{ nest() }}",
+	"{% macro m(a) %}<{{ a }}>{% endmacro %}{% macro xs() %}X{% endmacro %}{{ m(1) }}{{ _self.xs() }}",
+	"{% for m in xs %}{{ m }}{% endfor %}{% for k, xs in m %}{{ k }}{% endfor %}{% for st in is %}{{ st }}{% endfor %}{% for mi, nest in mi %}{{ mi }}{% endfor %}",
+	"{% block m %}B{% endblock %}{% block xs %}{{ xs|length }}{% endblock %}",
+	"{% import 'lib' as l %}{{ l.h(m, xs) }}{{ l.h(nest[1], nest[0]) }}{% include 'inc2' with {'m': m, 'xs': xs} %}",
 }
 
 // VH_C18_Frame: the caller's context and everything reachable from it is unchanged by a render.
@@ -110,6 +117,8 @@ func VH_C18_Frame() {
 	before := vhSnap(ctx)
 	e := New()
 	e.RegisterString("inc", "{% set x = 'inner' %}{% set fresh = 1 %}{{ xs|sort|join(',') }}{{ m|merge({'a': 1})|length }}")
+	e.RegisterString("lib", "{% macro f(a) %}f{{ a }}{% endmacro %}{% macro g() %}g{% endmacro %}{% macro h(m, xs) %}{% set m = m|merge({'h': 1}) %}{% set xs = xs|merge([0])|sort %}{{ m|length }}{{ xs|join(',') }}{% endmacro %}")
+	e.RegisterString("inc2", "{% import 'lib' as m %}{% from 'lib' import f as xs %}{{ m.f(1) }}{{ xs(2) }}")
 	if err := e.RegisterString("t", vhC18Tpl[t]); err != nil {
 		symAssert(false, "corpus-template-parses")
 		return
